@@ -38,7 +38,7 @@ fn proj(f: &[u8]) -> Value {
     json!({"k": "other-ip", "src": addr_str(&ip.src)})
 }
 
-fn server_frame(m: &DhcpMsg, unicast_to: Option<[u8; 4]>) -> Vec<u8> {
+pub fn server_frame(m: &DhcpMsg, unicast_to: Option<[u8; 4]>) -> Vec<u8> {
     let dst = unicast_to.unwrap_or([255, 255, 255, 255]);
     let ip = ipv4_packet(SRV_IP, dst, 17, 1, 64, &udp_datagram(67, 68, &m.emit()), true);
     eth_frame(if unicast_to.is_some() { MY_MAC } else { [0xff; 6] }, SRV_MAC, 0x0800, &ip)
